@@ -12,11 +12,19 @@ package server
 
 import (
 	"encoding/binary"
+	"encoding/json"
 	"fmt"
+	"io"
+	"net/http"
+	"os"
 	"path/filepath"
+	"sort"
+	"strconv"
+	"strings"
 	"sync"
 	"syscall"
 	"testing"
+	"time"
 )
 
 const c12fsMask = syscall.IN_CREATE | syscall.IN_DELETE | syscall.IN_MODIFY | syscall.IN_MOVED_FROM |
@@ -58,6 +66,11 @@ func c12fsRun(t *testing.T, sc map[string]any) map[string]any {
 	restore := s.install()
 	defer restore()
 	s.router = NewRouter(s.statePath)
+	if vBool(sc["no_hooks"]) {
+		// the hook callbacks cost some microseconds inside the snapshot's critical section, enough to hide races that
+		// are decided within a microsecond after it: these scenarios run with the hooks inert, as in production
+		verifEventFn, verifYieldFn = nil, nil
+	}
 
 	fd, err := syscall.InotifyInit1(syscall.IN_NONBLOCK | syscall.IN_CLOEXEC)
 	if err != nil {
@@ -69,6 +82,7 @@ func c12fsRun(t *testing.T, sc map[string]any) map[string]any {
 	}
 
 	fsEvents := [][]any{}
+	afterPar := []any{}
 	overflow := false
 	run := func(c map[string]any) {
 		id := vStr(c["id"])
@@ -92,6 +106,9 @@ func c12fsRun(t *testing.T, sc map[string]any) map[string]any {
 				}(p.(map[string]any))
 			}
 			wg.Wait()
+			// all the overlapping commands have returned: the file must describe the configuration in force NOW (a later
+			// snapshot would paper over one that got lost here)
+			afterPar = append(afterPar, map[string]any{"state_file": s.stateFile(), "cfg": c12Config(s.router)})
 		} else {
 			run(c)
 		}
@@ -119,7 +136,7 @@ func c12fsRun(t *testing.T, sc map[string]any) map[string]any {
 	results := s.results
 	s.mu.Unlock()
 	return map[string]any{"fs_events": fsEvents, "state_name": filepath.Base(s.statePath), "results": results,
-		"hooks": hooks, "overflow": overflow, "final_state_file": s.stateFile(), "final_cfg": c12Config(s.router),
+		"hooks": hooks, "overflow": overflow, "final_state_file": s.stateFile(), "final_cfg": c12Config(s.router), "after_par": afterPar, "no_hooks": vBool(sc["no_hooks"]),
 		"dir": fmt.Sprint(vDirSizes(dir))}
 }
 
@@ -134,4 +151,109 @@ func TestVerifC12FS(t *testing.T) {
 		res["i"] = i
 		out.emit(res)
 	}
+}
+
+// TestVerifC12Burst: "once all overlapping commands have returned the file describes the configuration in force", with
+// MANY quick commands at once and the hooks inert (as in production): round after round eight `rollout set` commands on
+// two services are issued together; when all have returned the state file is compared with the configuration in force.
+// Only stale rounds are written out (with both sides), plus one summary row.
+func TestVerifC12Burst(t *testing.T) {
+	if os.Getenv("VERIF_OUT") == "" {
+		t.Skip("VERIF_OUT not set")
+	}
+	rounds, _ := strconv.Atoi(os.Getenv("VERIF_ROUNDS"))
+	if rounds == 0 {
+		rounds = 2000
+	}
+	out := verifOpenOut(t)
+	defer out.close()
+	oldT := http.DefaultTransport
+	http.DefaultTransport = c12OKTransport{}
+	defer func() { http.DefaultTransport = oldT }()
+	statePath := filepath.Join(t.TempDir(), "state.json")
+	router := NewRouter(statePath)
+	topts := TargetOptions{HealthCheckConfig: HealthCheckConfig{Path: "/up", Interval: time.Hour, Timeout: time.Second}, ResponseTimeout: time.Second}
+	// many services: a snapshot takes a while to write, so commands queue up behind one another for it (a mutex whose
+	// waiters have waited long hands the lock over directly and the unlocking goroutine steps aside)
+	names := []string{}
+	for i := 0; i < 48; i++ {
+		names = append(names, "svc"+strconv.Itoa(i))
+	}
+	for i, name := range names {
+		if err := router.DeployService(name, []string{"t" + strconv.Itoa(i) + ":80"}, ServiceOptions{Hosts: []string{name + ".test"}}, topts, time.Second, time.Millisecond); err != nil {
+			t.Fatalf("verif: deploy: %v", err)
+		}
+		if i < 8 {
+			if err := router.SetRolloutTargets(name, []string{"r" + strconv.Itoa(i) + ":80"}, time.Second, time.Millisecond); err != nil {
+				t.Fatalf("verif: rollout deploy: %v", err)
+			}
+		}
+	}
+	defer func() {
+		for _, name := range names {
+			router.RemoveService(name)
+		}
+	}()
+	canon := func(v any) string { b, _ := json.Marshal(v); return string(b) }
+	stale := 0
+	for round := 0; round < rounds; round++ {
+		var wg sync.WaitGroup
+		start := make(chan struct{})
+		for j := 0; j < 8; j++ {
+			wg.Add(1)
+			go func(j int) {
+				defer wg.Done()
+				<-start
+				for k := 0; k < 4; k++ { // each client issues a few commands in a row for its own service
+					router.SetRolloutSplit(names[j], (round*8+j+k)%101, []string{"v" + strconv.Itoa(round*32+j*4+k)})
+				}
+			}(j)
+		}
+		close(start)
+		wg.Wait()
+		var file any = map[string]any{"error": "absent"}
+		if b, err := os.ReadFile(statePath); err == nil {
+			file = c12Parse(b, nil)
+		}
+		cfg := c12Config(router)
+		// the file lists the services in the order of the table walk: compare as sets of services
+		if !c12SameServices(file, cfg) {
+			stale++
+			if stale <= 3 {
+				out.emit(map[string]any{"round": round, "state_file": canon(file), "configuration_in_force": canon(cfg)})
+			}
+		}
+	}
+	out.emit(map[string]any{"summary": true, "rounds": rounds, "commands": rounds * 32, "services": len(names), "stale_rounds": stale})
+}
+
+type c12OKTransport struct{}
+
+func (c12OKTransport) RoundTrip(req *http.Request) (*http.Response, error) {
+	return &http.Response{StatusCode: 200, Status: "200 OK", Proto: "HTTP/1.1", ProtoMajor: 1, ProtoMinor: 1,
+		Header: http.Header{}, Body: io.NopCloser(strings.NewReader("")), Request: req}, nil
+}
+
+func c12SameServices(a, b any) bool {
+	la, ok1 := a.([]any)
+	lb, ok2 := b.([]any)
+	if !ok1 || !ok2 || len(la) != len(lb) {
+		return false
+	}
+	key := func(l []any) []string {
+		out := []string{}
+		for _, x := range l {
+			j, _ := json.Marshal(x)
+			out = append(out, string(j))
+		}
+		sort.Strings(out)
+		return out
+	}
+	ka, kb := key(la), key(lb)
+	for i := range ka {
+		if ka[i] != kb[i] {
+			return false
+		}
+	}
+	return true
 }
